@@ -103,6 +103,7 @@ static void c07_case(const KeyCfg *k, int be, int nblk, int dir, int family, int
     memset(out_[0], 0xEE, n + 16);
     if (inplace) { memcpy(out_[0], in_, n); r = par_crypt(k->c, &o, out_[0], out_[0], tw_, n, dir); }
     else r = par_crypt(k->c, &o, out_[0], in_, tw_, n, dir);
+    out_digest("parallel-output", out_[0], n); out_digest("parallel-return", &r, sizeof(r));
     if (nblk > 0 && memcmp(out_[0], in_, n) != 0) distinct_add_u64(fnv1a(out_[0], n, fnv1a(cd, strlen(cd), FNV_INIT)));
     if (r != 1) {
         snprintf(sig, sizeof(sig), "C07/%s/%s/return-value", cipher_name(k->c), be_name(be));
